@@ -20,6 +20,8 @@ pub const CL_CTRL: u32 = 4;
 pub const CL_U2: u32 = 8;
 pub const CL_U3: u32 = 16;
 pub const CL_U4: u32 = 32;
+/// objects may repeat a member name (well-formed JSON; lookups by key then mean the first such member)
+pub const CL_DUPKEY: u32 = 128;
 pub const CL_ODD: u32 = 64; // '/', DEL, U+0080, U+2028, U+FFFD ...
 
 impl GenCfg {
@@ -238,7 +240,7 @@ fn gen_j_at(cfg: &GenCfg, depth: u32, budget: &mut i32, force_container: bool) -
                 break;
             }
             let k = gen_key(cfg);
-            if m.iter().any(|(kk, _)| *kk == k) {
+            if m.iter().any(|(kk, _)| *kk == k) && (cfg.classes & CL_DUPKEY == 0 || chance(1, 2)) {
                 continue;
             }
             m.push((k, gen_j_at(cfg, depth + 1, budget, false)));
@@ -378,7 +380,11 @@ pub fn all_paths(j: &J) -> Vec<Vec<Step>> {
                 }
             }
             J::Obj(m) => {
-                for (k, x) in m {
+                for (i, (k, x)) in m.iter().enumerate() {
+                    // a member shadowed by an earlier one of the same name cannot be addressed by key
+                    if m.iter().position(|(kk, _)| kk == k) != Some(i) {
+                        continue;
+                    }
                     cur.push(Step::Key(k.clone()));
                     out.push(cur.clone());
                     rec(x, cur, out);
